@@ -739,7 +739,23 @@ pub fn install_panic_hook() {
                 .map(|l| format!("{}:{}", l.file(), l.line()))
                 .unwrap_or_default();
             let in_task = IN_TASK_POLL.with(|f| f.get());
-            LAST_PANIC.with(|p| *p.borrow_mut() = Some(format!("{} at {}", msg, loc)));
+            // A panic raised inside a dependency (bytes, tokio, ...) belongs to whoever called
+            // it: walk the backtrace outwards and see whether code of the library under test or
+            // code of the harness comes first
+            let mut via = String::new();
+            if in_task && !loc.contains("/repo/") {
+                let bt = std::backtrace::Backtrace::force_capture().to_string();
+                let first_repo = bt.find("/repo/");
+                let first_sim = bt.find("/verif/sim/src/");
+                if let Some(i) = first_repo {
+                    if first_sim.map(|j| i < j).unwrap_or(true) {
+                        let tail = &bt[i..];
+                        let end = tail.find('\n').unwrap_or(tail.len());
+                        via = format!(" (raised in a dependency, called from code at {})", tail[..end].trim());
+                    }
+                }
+            }
+            LAST_PANIC.with(|p| *p.borrow_mut() = Some(format!("{} at {}{}", msg, loc, via)));
             if verbose || !in_task {
                 prev(info);
             }
